@@ -80,6 +80,10 @@ SpOfKind(k) == CASE k = "Func" -> "f" [] k = "Global" -> "g" [] k = "Memory" -> 
 \* ---- C28 ------------------------------------------------------------------
 CustAdd(E, name, bytes) == [E EXCEPT !.customs = Append(@, [name |-> name, bytes |-> bytes])]
 CustDel(E, id) == IF id < Len(E.customs) THEN [E EXCEPT !.customs = RemoveAtIdx(@, id + 1)] ELSE E
+\* by-name lookup: the ID of the first custom section with that name, -1 when there is none
+CustFind(E, name) ==
+    LET hits == {i \in DOMAIN E.customs : E.customs[i].name = name}
+    IN IF hits = {} THEN -1 ELSE (CHOOSE i \in hits : \A j \in hits : i <= j) - 1
 CustModOk(E, id) == id < Len(E.customs)
 CustMod(E, id, bytes) == IF id < Len(E.customs) THEN [E EXCEPT !.customs[id + 1].bytes = bytes] ELSE E
 =============================================================================
